@@ -4,6 +4,7 @@ package corpus
 
 import (
 	"fmt"
+	"strings"
 
 	"verif/mc/dump"
 	"verif/mc/gen/fam"
@@ -74,14 +75,20 @@ func Each(tier string, shard, nShards, stride int, f func(Set)) {
 // every module, so that a path means something only in the module that spells it.
 func prefixSets() []Set {
 	var out []Set
-	for v, px := range [][3]string{{"x", "y", "z"}, {"b", "a", "c"}, {"c", "c", "a"}, {"a1", "b", "a"}} {
+	// the last two: c knows a as b and b as a - each prefix is the name of the other import
+	for v, px := range [][3]string{{"x", "y", "z"}, {"b", "a", "c"}, {"c", "c", "a"}, {"a1", "b", "a"}, {"x", "b", "a"}, {"a.b", "b", "a"}} {
 		// px[0]: how b calls a; px[1]: how c calls a; px[2]: how c calls b
 		if px[1] == px[2] {
 			continue
 		}
 		a := `module a { namespace "urn:a"; prefix a; grouping g { leaf gl { type string; } container gc { leaf gd { type string; } } } container top { container c { leaf l { type string; } } choice ch { leaf s { type string; } case k { leaf kk { type string; } } } } rpc r { input { leaf i { type string; } } } }`
 		b := fmt.Sprintf(`module b { namespace "urn:b"; prefix b; import a { prefix %[1]s; } container bt { leaf bl { type string; } uses %[1]s:g; } augment /%[1]s:top/%[1]s:c { container be { leaf bf { type string; } } } augment /%[1]s:r/%[1]s:output { leaf bo { type string; } } }`, px[0])
-		c := fmt.Sprintf(`module c { namespace "urn:c"; prefix c; import a { prefix %[1]s; } import b { prefix %[2]s; } container ct { leaf cl { type string; } uses %[1]s:g; } augment /%[1]s:top { leaf cy { type string; } container cc { uses %[1]s:g; } } augment /%[2]s:bt { leaf cz { type string; } } augment /%[1]s:top/%[1]s:ch { leaf cs { type string; } } }`, px[1], px[2])
+		imports := fmt.Sprintf(`import a { prefix %[1]s; } import b { prefix %[2]s; }`, px[1], px[2])
+		c := fmt.Sprintf(`module c { namespace "urn:c"; prefix c; `+imports+` container ct { leaf cl { type string; } uses %[1]s:g; } augment /%[1]s:top { leaf cy { type string; } container cc { uses %[1]s:g; } } augment /%[2]s:bt { leaf cz { type string; } } augment /%[1]s:top/%[1]s:ch { leaf cs { type string; } } }`, px[1], px[2])
+		if v == 5 {
+			// without the augment into b: lookups from c's own nodes are then the only users of the prefix
+			c = strings.Replace(c, fmt.Sprintf(` augment /%s:bt { leaf cz { type string; } }`, px[2]), "", 1)
+		}
 		out = append(out, Set{"prefix", fmt.Sprintf("prefix-variant-%d b:a=%s c:a=%s c:b=%s", v, px[0], px[1], px[2]),
 			[]dump.File{{Name: "a.yang", Text: a}, {Name: "b.yang", Text: b}, {Name: "c.yang", Text: c}}})
 	}
